@@ -750,8 +750,9 @@ def check_c20(rep):
             raw += f.result().splitlines()
     allev = [json.loads(l) for l in raw]
     layouts = [e for e in allev if e["k"] == "cheetah_layout"]
-    raw = [l for l, e in zip(raw, allev) if e["k"] != "cheetah_layout"]
-    evs = [e for e in allev if e["k"] != "cheetah_layout"]
+    clayouts = [e for e in allev if e["k"] == "conv_layout"]
+    raw = [l for l, e in zip(raw, allev) if e["k"] not in ("cheetah_layout", "conv_layout")]
+    evs = [e for e in allev if e["k"] not in ("cheetah_layout", "conv_layout")]
     # design: the coefficient packing (block search, index maps, block-wise negacyclic products) computes the matrix product
     quick = rep.tier == "quick"
     design = []
@@ -776,6 +777,26 @@ def check_c20(rep):
             rep.violation({"k": "cheetah_layout", "objective": e["objective"], "panic": e["panicked"]},
                           {"event": {k: v for k, v in e.items() if k not in ("enc_in", "enc_w")}, "cmd": None})
     rep.cov["cheetah_layout_events"] = nlay
+    # the same for the convolution packing: Conv2d.tla (five-dimensional block search, overlapping tiles, index maps)
+    cfgp = os.path.join(wd, "conv_design.cfg")
+    mhw, mk = (4, 2) if quick else (6, 3)
+    open(cfgp, "w").write("SPECIFICATION Spec\nCONSTANTS\n  N = 32\n  MaxB = 2\n  MaxC = 2\n  MaxHW = %d\n  MaxK = %d\nINVARIANTS AllBlocksOk AllIndexOk AllUnitsOk\nCHECK_DEADLOCK FALSE\n" % (mhw, mk))
+    r = run_tlc("Conv2d", cfgp, wd, workers=1, timeout=3000, java_opts="-Xss1g")
+    if r["violated"]:
+        raise ToolError("Conv2d.tla violates %s" % r["violated"])
+    tlc_must_pass(r, "Conv2d.tla")
+    rep.cov["conv2d_refinement_design"] = {"N": 32, "batch<=": 2, "channels<=": 2, "image_side<=": mhw, "kernel_side<=": mk, "objectives": 3, "tlc_wall_s": round(r["wall_s"], 1)}
+    ncl = 0
+    for n in sorted({e["N"] for e in clayouts}):
+        part = [dict(e, panicked=("panic" in e)) for e in clayouts if e["N"] == n]
+        cfg = "SPECIFICATION TSpec\nCONSTANTS\n  N = %d\n  MaxB = 1\n  MaxC = 1\n  MaxHW = 1\n  MaxK = 1\nINVARIANT Report\nINVARIANT AllHold\nCHECK_DEADLOCK FALSE\n" % n
+        lbad, lst = arith.validate([json.dumps(e) for e in part], wd, name="convlayout%d" % n, module="Trace_Conv2d", chunks=8, timeout=3000, cfg_text=cfg)
+        ncl += len(part)
+        for b in lbad:
+            e = part[b[0] - 1]
+            rep.violation({"k": "conv_layout", "objective": e["objective"], "panic": e["panicked"]},
+                          {"event": {k: v for k, v in e.items() if k not in ("enc_in", "enc_w")}, "cmd": None})
+    rep.cov["conv2d_layout_events"] = ncl
     bad, st = arith.validate(raw, wd, module="Trace_MatMul", chunks=8, timeout=3000)
     for b in bad:
         e = evs[b[0] - 1]
@@ -800,7 +821,7 @@ def check_c20(rep):
                        "stated dimension and bound to the helper through its block choice, encoded polynomials and term lists")
     rep.samples += [{k: v for k, v in evs[i].items() if k not in ("x", "w", "bias", "y", "v", "out")} for i in (0, len(evs) // 2, len(evs) - 1)]
     rep.assumptions += ["operands are random per run (seeded); only the listed small shapes are covered; the CKKS variants and the RNS-plaintext wrapper are not exercised by this check"]
-    log("[C20] %d events, %d rejected; %d layout events against Cheetah.tla" % (len(raw), len(bad), nlay))
+    log("[C20] %d events, %d rejected; %d layout events against Cheetah.tla, %d against Conv2d.tla" % (len(raw), len(bad), nlay, ncl))
 
 
 REGISTRY.update({"C20": (check_c20, "model_checking")})
